@@ -226,6 +226,10 @@ impl<L: Language, N: Analysis<L>> EGraph<L, N> {
         let t = (sh, bij);
         self.raw_add_to_class(i.id, t.clone(), src_id);
 
+        // The e-node may have been re-made above under a stale shape: if it is a usage of its own class, a change
+        // of the datum did not re-queue it, as it was not yet registered under the leader. Re-make it as stored.
+        self.update_analysis(&t.0, i.id);
+
         self.determine_self_symmetries(src_id);
     }
 
